@@ -31,7 +31,9 @@ pub fn oracle(tier: &str, seed: u64) -> (u64, Vec<Finding>) {
         let want = reference::tgamma(x);
         if !want.is_finite() || want.abs() < f64::MIN_POSITIVE { return; }
         let d = pole_dist(x);
-        if d < 1e-3 { return; }
+        // near a pole -n (n >= 1) the relative condition number |x|/d is huge: skipped; near 0 it is 1 (Gamma(x) ~ 1/x is a finite normal
+        // f64 down to |x| ~ 1e-308), so tiny arguments of either sign are in the quantifier
+        if d < 1e-3 && x.abs() >= 0.5 { return; }
         *tried += 1;
         crumb(&format!("gamma x={:e}", x));
         let got = gamma(x);
@@ -47,6 +49,8 @@ pub fn oracle(tier: &str, seed: u64) -> (u64, Vec<Finding>) {
     f32_sweep(-170.0, 171.6, stride, |x| chk_gamma(x, &mut tried));
     for _ in 0..(if thorough { 200000 } else { 20000 }) { let x = r.uniform(-170.0, 171.6); chk_gamma(x, &mut tried); }
     for n in 1..=171 { chk_gamma(n as f64, &mut tried); chk_gamma(n as f64 + 0.5, &mut tried); }
+    // tiny arguments of both signs at every decade (not powers of two: the low bits matter)
+    for k in 1..=300i32 { for sgn in [1.0, -1.0] { for _ in 0..(if thorough { 20 } else { 3 }) { let x = sgn * r.uniform(1.0, 10.0) * (10.0f64).powi(-k); chk_gamma(x, &mut tried); } } }
     // ---- identities: Gamma(x+1) = x Gamma(x), Gamma(n+1) = n!
     for _ in 0..(if thorough { 50000 } else { 5000 }) {
         let x = r.uniform(0.01, 170.0); tried += 1;
@@ -70,6 +74,21 @@ pub fn oracle(tier: &str, seed: u64) -> (u64, Vec<Finding>) {
         if !(err <= 1e-12) { fail(if got.is_finite() && got != 0.0 { "beta:inaccurate" } else { "beta:degenerate" }, err, format!("beta({:e},{:e}) = {:e}, Gamma(a)Gamma(b)/Gamma(a+b) = {:e}", a, b, got, want), format!("a={:e} b={:e}", a, b)); }
         let sym = beta(b, a); let e2 = ((got - sym) / want).abs();
         if !(e2 <= 1e-12) { fail("beta:asymmetric", e2, format!("beta(a,b) = {:e} but beta(b,a) = {:e}", got, sym), format!("a={:e} b={:e}", a, b)); }
+    }
+    // ---- beta on the grid of special values (exactly 1, 2, 3, 1/2, ... in either slot): B(a,1) = 1/a, B(1,b) = 1/b, B(m,n) by factorials
+    {
+        let grid = [0.25, 0.5, 1.0, 1.5, 2.0, 2.5, 3.0, 4.0, 5.0, 7.0, 10.0, 20.0, 50.0, 80.0];
+        for &a in &grid { for &b in &grid {
+            tried += 1;
+            let want = reference::tgamma(a) * reference::tgamma(b) / reference::tgamma(a + b);
+            let want = if b == 1.0 { 1.0 / a } else if a == 1.0 { 1.0 / b } else { want };
+            crumb(&format!("beta a={:e} b={:e}", a, b));
+            let got = beta(a, b);
+            let err = ((got - want) / want).abs();
+            if !(err <= 1e-12) { fail(if got.is_finite() && got != 0.0 { "beta:inaccurate" } else { "beta:degenerate" }, err, format!("beta({:e},{:e}) = {:e}, Gamma(a)Gamma(b)/Gamma(a+b) = {:e}", a, b, got, want), format!("a={:e} b={:e}", a, b)); }
+            let sym = beta(b, a); let e2 = ((got - sym) / want).abs();
+            if !(e2 <= 1e-12) { fail("beta:asymmetric", e2, format!("beta(a,b) = {:e} but beta(b,a) = {:e}", got, sym), format!("a={:e} b={:e}", a, b)); }
+        }}
     }
     // ---- digamma: integers against harmonic numbers, recurrence, accuracy 1e-10 rel. to max(1,|psi|)
     const EULER: f64 = 0.577_215_664_901_532_9;
@@ -146,6 +165,11 @@ pub fn gen(tier: &str, seed: u64, outdir: &str) {
         let (t, e) = one(|| beta(a, b));
         cs.push(app("CBeta", vec![libm_table(&t), Tm::F(a), Tm::F(b), e]), if a < 0.5 || b < 0.5 { "beta/reflection" } else { "beta/direct" }, true);
     }
+    // beta on the grid of special values (exactly 1, 2, 1/2, ... in either slot)
+    for &a in &[0.25, 0.5, 1.0, 1.5, 2.0, 3.0, 5.0, 10.0, 50.0] { for &b in &[0.25, 0.5, 1.0, 1.5, 2.0, 3.0, 5.0, 10.0, 50.0] {
+        let (t, e) = one(|| beta(a, b));
+        cs.push(app("CBeta", vec![libm_table(&t), Tm::F(a), Tm::F(b), e]), "beta/special-grid", true);
+    }}
     // digamma: recurrence depths 0..6 and beyond (negative arguments), large arguments, integers
     let mut dx: Vec<(f64, &str)> = vec![];
     for n in 1..=40 { dx.push((n as f64, "digamma/integer")); }
